@@ -417,6 +417,13 @@ def check(case, log, oc, labels, partial=False):
     for rec in recs:
         op = rec["op"]
         if partial and rec.get("n_ret") is None:
+            # the operation that never returned: when the model (which followed the observations, e.g. a write refused because an
+            # accounting defect reported earlier made the disk look full) says its precondition does not hold, the abort is the plugin's
+            # documented reaction (seek before the beginning of the file), not a finding
+            try:
+                m.apply(op, None)
+            except Invalid as e:
+                oc.info["crash_explained"] = str(e)
             return steps
         if "exc" in rec or rec.get("n_ret") is None:
             oc.bad("operation-failed:" + op[0], "operation %r did not return normally: %r" % (op, rec.get("exc")))
